@@ -9,6 +9,7 @@ import (
 	"sort"
 	"strconv"
 	"strings"
+	"sync"
 
 	"golang.org/x/mod/sumdb/tlog"
 
@@ -45,7 +46,7 @@ func viol(c *core.Case, sig, format string, a ...any) []core.Violation {
 
 func (w *tlogWorld) Check(c *core.Case) ([]core.Violation, bool) {
 	switch c.K {
-	case "appendidx", "treeidx", "coord":
+	case "appendidx", "treeidx", "coord", "concappend":
 		return w.checkRecorded(c)
 	case "append":
 		return w.checkAppend(c)
@@ -328,6 +329,8 @@ func (w *tlogWorld) Record(rng *rand.Rand, n int, emit func(k string, in, obs an
 			emit("coord", map[string]any{"l": L, "k": K}, coordObs(L, K))
 		}
 	}
+	// several logs written at the same time by different goroutines: each is its own log (the package has no shared state)
+	emit("concappend", map[string]any{"logs": 4, "n": 400}, map[string]any{"hashok": concurrentLogs(4, 400)})
 	// earlier boundary sizes, read from the full store
 	for m := 1; m < n; m++ {
 		if boundarySize(m) {
@@ -335,6 +338,37 @@ func (w *tlogWorld) Record(rng *rand.Rand, n int, emit func(k string, in, obs an
 			emit("treeidx", map[string]any{"m": m, "size": n}, withDrift(obs, drift))
 		}
 	}
+}
+
+// concurrentLogs appends n records to each of k independent logs, one goroutine per log, and reports whether every
+// stored hash and every tree hash is the RFC 6962 one.
+func concurrentLogs(k, n int) bool {
+	ok := make([]bool, k)
+	var wg sync.WaitGroup
+	for g := 0; g < k; g++ {
+		wg.Add(1)
+		go func(g int) {
+			defer wg.Done()
+			defer func() { recover() }() // a panic leaves ok[g] false
+			lg := &longLog{st: &memStore{}}
+			good := true
+			for i := 0; i < n; i++ {
+				obs, _ := lg.appendOne()
+				if obs["hashok"] != true {
+					good = false
+				}
+			}
+			tobs, _ := lg.treeObs(n)
+			ok[g] = good && tobs["matchesRef"] == true
+		}(g)
+	}
+	wg.Wait()
+	for _, b := range ok {
+		if !b {
+			return false
+		}
+	}
+	return true
 }
 
 // checkRecorded re-runs one recorded event of a long log and compares it with the specification's expectation.
@@ -359,6 +393,12 @@ func (w *tlogWorld) checkRecorded(c *core.Case) ([]core.Violation, bool) {
 		obs, _ = g.treeObs(in.M)
 	case "coord":
 		obs = coordObs(in.L, in.K)
+	case "concappend":
+		good := true
+		for try := 0; try < 3 && good; try++ {
+			good = concurrentLogs(4, 400)
+		}
+		obs = map[string]any{"hashok": good}
 	}
 	if d := core.Diff(exp, obs); len(d) > 0 {
 		return viol(c, c.K+":trace", "long log, event %s %s: observed %v, the specification expects %v (fields %v)", c.K, string(c.In), obs, exp, d), true
